@@ -350,7 +350,11 @@ func rulesC02(r *Run) {
 	ruleRecoverRunsPlans(r, "R5")
 	ruleFilterCompaction(r, "R5")
 	ruleSharedEngineStateImmutable(r, "R5")
-	r.Expect("R5", 6)
+	// round-4 seed C02-7: two Start calls that both pass the registered-check run two state machines over two copies of the
+	// plan, each with its own limiter: the bound on sequences in flight is per machine, so it holds per plan only if
+	// check, Read, validation and launch are one critical section (= C12-R1)
+	ruleStartExclusion(r, "R5")
+	r.Expect("R5", 7)
 
 	// R6: a slot is given back when an action times out, so the timed-out plugin must have been told to stop
 	// (round-3 seed C02-6): the plugin runs under the timeout context of run()
